@@ -188,6 +188,9 @@ pub fn explain<S: Subject>(sim: &Sim<S>, know: Bits, lin: &Lineage, points: &[St
             let k: u8 = k.parse().ok()?;
             let mut ok = None;
             for c in enabled {
+                if !crate::engine::class_enabled(c.name()) {
+                    continue;
+                }
                 let hit = match c {
                     Class::T1 => t1(&ds, k, lin),
                     Class::T2 => t2(&ds, k),
@@ -245,6 +248,9 @@ pub fn explain_eq<S: Subject>(sim: &Sim<S>, know: Bits, lin: &Lineage, enabled: 
     keys.dedup();
     for k in keys {
         for c in enabled {
+            if !crate::engine::class_enabled(c.name()) {
+                continue;
+            }
             let hit = match c {
                 Class::T1 => t1(&ds, k, lin),
                 Class::T2 => t2(&ds, k),
